@@ -250,11 +250,14 @@ BifApplyRe(name, args, re) ==
   IF n >= 2 /\ a2.k = "str" /\ a2.cp # Re!Render(re) THEN Unspec            \* (the tree does not belong to the pattern: not a case)
   ELSE CASE name = "matches" ->
               IF n < 2 \/ n > 3 THEN Null ELSE IF ~strs(n) THEN Null
+              ELSE IF n = 3 /\ a3.cp = <<105>> THEN Bool(Re!MatchesI(re, a1.cp))         \* flag "i"
               ELSE IF n = 3 /\ a3.cp # <<>> THEN Unspec
               ELSE Bool(Re!Matches(re, a1.cp))
          [] name = "replace" ->
               IF n < 3 \/ n > 4 THEN Null ELSE IF ~strs(n) THEN Null
-              ELSE IF n = 4 /\ a4.cp # <<>> THEN Unspec
+              ELSE IF n = 4 /\ a4.cp \notin {<<>>, <<105>>} THEN Unspec
+              ELSE IF n = 4 /\ a4.cp = <<105>> THEN
+                   (IF Re!MatchesEmptyIn(Re!FoldRe(re), Re!FoldS(a1.cp)) \/ ~Re!RepOk(a3.cp, 1, 3) THEN Unspec ELSE Str(Re!ReplaceI(re, a1.cp, a3.cp)))
               ELSE IF Re!MatchesEmptyIn(re, a1.cp) THEN Unspec              \* an expression matching the empty string: an error in XPath
               ELSE IF ~Re!RepOk(a3.cp, 1, 3) THEN Unspec                    \* malformed replacement text: an error in XPath
               ELSE Str(Re!Replace(re, a1.cp, a3.cp))
